@@ -11,7 +11,8 @@ META = {
     "id": "C40",
     "design_ref": "DESIGN.md §9 C40",
     "technique": "Lean 4 theorems over a hand-written recursive model of assign() on object trees (views with Amaranth's "
-    "member offsets, dicts, lists, ArrayProxies, ints; AssignType / iterable / mapping selections); correspondence "
+    "member offsets and Enum/IntEnum-shaped members, data.Const, dicts, lists, (nested) ArrayProxies, ints and enum "
+    "members; AssignType / iterable / mapping selections); correspondence "
     "of the model with the real assign() whose statements are executed by pysim and observed bit by bit",
     "level_text": "c40_sound (every statement belongs to a selected leaf pair: nothing else is assigned), c40_complete (every "
     "selected leaf pair gets its statement), c40_once (no left operand twice), c40_same_path (same key path on both "
@@ -24,8 +25,10 @@ META = {
     "statements with distinguishing right-hand valuations and two left-hand reset values",
     "level_note": "trusted: Lean kernel, axioms propext/Classical.choice/Quot.sound; Amaranth (layout offsets, View indexing, "
     "ArrayProxy semantics, pysim); the harness glue. Exception classes are not compared (set iteration order decides "
-    "which of several errors is raised first); data.Const operands, enums, non-homogeneous Arrays and nested "
-    "ArrayProxies (other than homogeneous nested ones) are not modelled. The two defects found here (F-b7-1 no shape "
+    "which of several errors is raised first); data.Const operands occur on the right only, enum classes have every "
+    "value of their width as a member; non-homogeneous Arrays are not modelled. Excluded regions (open / proposed "
+    "finding): ArrayProxy over a union with >= 2 members (F-b7-3). F-b7-4 (an int unwrapped from a single-member "
+    "Const was shape-checked by its value) was repaired by d1cbe8d and is a regression case. The two defects found here (F-b7-1 no shape "
     "check after unwrapping a single-member view onto a signed member, F-b7-2 AttributeError for an ArrayProxy over "
     "array layouts) were repaired in /repo (744698a, b9861c1); their witnesses are regression cases that run first "
     "and both regions are generated normally with the monitor on.",
@@ -337,23 +340,32 @@ class RefRaise(Exception):
 class Node:
     """an operand node for the reference: kind in val/view/int/dict/list; proxy = (idx, stores) or None"""
 
-    def __init__(self, kind, lay=None, store=0, off=0, proxy=None, items=None, value=0):
+    def __init__(self, kind, lay=None, store=0, off=0, proxy=None, items=None, value: Any = 0, strict=False):
         self.kind, self.lay, self.store, self.off, self.proxy, self.items, self.value = kind, lay, store, off, proxy, items, value
+        self.strict = strict  # a Python constant that is a member of a data.Const (its shape is known)
+
+    @staticmethod
+    def leaf_kind(lay) -> str:
+        return "val" if lay[0] in "bgn" else "enumv" if lay[0] == "e" else "view"
 
     @staticmethod
     def of(obj) -> "Node":
         t = obj[0]
         if t == "V":
-            return Node("val" if obj[1][0] in "bg" else "view", obj[1], obj[2], 0)
+            return Node(Node.leaf_kind(obj[1]), obj[1], obj[2], 0)
         if t == "P":
             flat = obj[2]
             if len(obj) > 4:  # the view selected by arr[i][j][k], signals listed in row-major order
                 flat = 0
                 for v, d in zip(obj[2], obj[4]):
                     flat = flat * d + v
-            return Node("val" if obj[1][0] in "bg" else "view", obj[1], 0, 0, (flat, obj[3]))
+            return Node(Node.leaf_kind(obj[1]), obj[1], 0, 0, (flat, obj[3]))
         if t == "i":
             return Node("int", value=obj[1])
+        if t == "C":
+            return Node("const", obj[1], value=obj[2])
+        if t == "E":
+            return Node("int", value=enum_class(obj[2], obj[3])(obj[1]))
         if t == "D":
             return Node("dict", items=[(k, Node.of(o)) for k, o in obj[1]])
         return Node("list", items=[(i, Node.of(o)) for i, o in enumerate(obj[1])])
@@ -361,6 +373,9 @@ class Node:
     def fields(self) -> Optional[list]:
         if self.kind in ("dict", "list"):
             return [k for k, _ in self.items]
+        if self.kind == "const":
+            t = self.lay[0]
+            return [k for k, _ in self.lay[1]] if t == "s" else list(range(self.lay[2])) if t == "a" else None
         if self.kind == "view":
             t = self.lay[0]
             if t == "s" or (t == "u" and self.proxy is not None):
@@ -373,9 +388,16 @@ class Node:
         if self.kind in ("dict", "list"):
             return dict(self.items)[k]
         rl = real_layout(self.lay)  # offsets are Amaranth's own
-        f = rl[k]
         sub = dict(self.lay[1])[k] if self.lay[0] in "su" else self.lay[1]
-        return Node("val" if sub[0] in "bg" else "view", sub, self.store, self.off + f.offset, self.proxy)
+        if self.kind == "const":  # members of a constant as Amaranth's own Const.__getitem__ gives them
+            from amaranth.lib import data
+
+            x = data.Const(rl, self.value)[k]
+            if isinstance(x, data.Const):
+                return Node("const", sub, value=x.as_value().value)
+            return Node("int", value=x, strict=True)  # an int, an IntEnum member (also an int) or an Enum member
+        f = rl[k]
+        return Node(Node.leaf_kind(sub), sub, self.store, self.off + f.offset, self.proxy)
 
     def is_union(self) -> bool:
         return self.kind == "view" and self.lay[0] == "u" and self.proxy is None
@@ -425,26 +447,34 @@ def _ref(l: Node, r: Node, sel, out: list):
         l = l.child(f[0])
     while (f := r.fields()) is not None and len(f) == 1:
         r = r.child(f[0])
-    if l.kind == "int":
-        raise RefRaise("int on the left")
+    if l.kind in ("int", "const"):
+        raise RefRaise("a constant on the left")
+
     def shape(n: Node):
-        from amaranth import signed, unsigned
+        from amaranth import Const, signed, unsigned
 
         if n.kind == "int":
-            return unsigned(max(1, n.value.bit_length()))
-        if n.kind == "view" and n.proxy is None:
+            return Const(n.value).shape() if type(n.value) is int else type(n.value)  # shape_of's "hack for enums"
+        if n.kind in ("view", "const") and n.proxy is None:
+            return real_layout(n.lay)
+        if n.kind == "enumv" and n.proxy is None:
             return real_layout(n.lay)
         return (signed if n.kind == "val" and n.lay[0] == "g" else unsigned)(n.width())
 
+    l_castable = l.kind in ("view", "enumv") or l.proxy is not None
     if r.kind == "int":
-        # an int has no shape of its own: it is checked only against a View or an ArrayProxy (both ValueCastable)
-        if (l.kind == "view" or l.proxy is not None) and shape(l) != shape(r):
-            raise RefRaise("shape mismatch against an int")
-        out.append((l.dst_store(), l.off, l.width(), ("c", r.value)))
+        # a Python constant has no shape of its own: an int is checked only against a View / EnumView / ArrayProxy
+        # (ValueCastable); a member of an Enum class taken from a data.Const also carries the shape of its class
+        enum_member = not isinstance(r.value, int)
+        if (l_castable or (enum_member and r.strict)) and shape(l) != shape(r):
+            raise RefRaise("shape mismatch against a constant")
+        out.append((l.dst_store(), l.off, l.width(), ("c", int(r.value) if isinstance(r.value, int) else r.value.value)))
         return
-
     if shape(l) != shape(r):
         raise RefRaise("shape mismatch")
+    if r.kind == "const":
+        out.append((l.dst_store(), l.off, l.width(), ("c", r.value)))
+        return
     out.append((l.dst_store(), l.off, l.width(), ("b", r.dst_store(), r.off)))
 
 
@@ -499,10 +529,17 @@ def monitor(case: Case, out: list[str]):
 NAMES = ["a", "b", "c", "d", "x", "y"]
 
 
+def gen_leaf(rng, w: int):
+    """unsigned / signed / an Enum class (two classes per width) / the IntEnum class of that width"""
+    t = rng.choice("bbbggeen")
+    w = min(w, 3) if t in "en" else w  # every value of the width is a member of the class: keep classes small
+    return ["e", w, rng.randint(1, 2)] if t == "e" else [t, w]
+
+
 def gen_layout(rng, depth: int, arrays: bool = True):
     r = rng.random()
     if depth <= 0 or r < 0.35:
-        return [rng.choice("bbg"), rng.randint(1, 4)]
+        return gen_leaf(rng, rng.randint(1, 4))
     if r < 0.75:
         lay = ["s", [[nm, gen_layout(rng, depth - 1, arrays)] for nm in rng.sample(NAMES, rng.randint(1, 3))]]
     elif r < 0.88 and arrays:
@@ -535,8 +572,10 @@ def _has_array(lay) -> bool:
 def mutate_layout(rng, lay):
     """a layout that differs a little: a member dropped / added / resized / reordered somewhere"""
     t = lay[0]
-    if t in "bg":
-        return [rng.choice("bg") if rng.random() < 0.3 else t, max(1, lay[1] + rng.choice([-1, 0, 1]))]
+    if t in "bgen":
+        if rng.random() < 0.4:  # another kind of member of the same width (enum against plain, another enum class)
+            return gen_leaf(rng, lay[1])
+        return [t, max(1, min(lay[1] + rng.choice([-1, 0, 1]), 3 if t in "en" else 9))] + lay[2:]
     if t == "a":
         if rng.random() < 0.5:
             return ["a", mutate_layout(rng, lay[1]), lay[2]]
@@ -570,8 +609,12 @@ def gen_obj(rng, lay, st: _Stores, rhs: bool, depth: int = 2):
     """an operand whose member structure follows `lay`: a signal, a proxy, or a dict/list of operands"""
     r = rng.random()
     t = lay[0]
-    if rhs and t in "bg" and r < 0.15:
+    if rhs and t in "bgn" and r < 0.15:
         return ["i", rng.randrange(1 << lay[1]) if rng.random() < 0.7 else rng.randrange(200)]
+    if rhs and t == "e" and r < 0.25:
+        return ["E", rng.randrange(1 << lay[1]), lay[1], lay[2]]
+    if rhs and t in "sua" and r < 0.22 and lay_size(lay) > 0:
+        return ["C", lay, rng.randrange(1 << lay_size(lay))]
     if depth > 0 and t == "s" and r < 0.3:
         return ["D", [[k, gen_obj(rng, l, st, rhs, depth - 1)] for k, l in lay[1]]]
     if depth > 0 and t == "a" and r < 0.35:
@@ -596,7 +639,7 @@ def gen_obj(rng, lay, st: _Stores, rhs: bool, depth: int = 2):
 
 def gen_sel(rng, lay, depth: int = 2):
     r = rng.random()
-    if r < 0.5 or lay[0] in "bg" or depth == 0:
+    if r < 0.5 or lay[0] in "bgen" or depth == 0:
         return ["m", rng.choice("CLRAAR")]
     keys = [k for k, _ in lay[1]] if lay[0] in "su" else list(range(lay[2]))
     sub = (lambda k: dict(lay[1])[k]) if lay[0] in "su" else (lambda k: lay[1])
@@ -673,6 +716,30 @@ def directed_calls():
         (V(["s", [["x", ["s", [["a", ["b", 1]]]]], ["y", ["b", 1]]]]), V(["s", [["x", ["s", [["a", ["b", 1]], ["b", ["b", 2]]]]], ["y", ["b", 1]]]]), ["I", ["x"]]),
         (V(["s", [["x", ["s", [["a", ["b", 1]], ["b", ["b", 2]]]]], ["y", ["b", 1]]]]), V(["s", [["x", ["s", [["a", ["b", 1]], ["b", ["b", 2]]]]], ["y", ["b", 1]]]]), ["I", ["x"]]),
         (V(["a", ["s", [["a", ["b", 1]], ["b", ["b", 2]]]], 2]), ["L", [V(["s", [["a", ["b", 1]]]]), V(["s", [["a", ["b", 1]], ["b", ["b", 2]]]])]], ["I", [0]]),
+        # data.Const operands; members shaped by an Enum class (strict, carry the class as shape) and by an IntEnum (ints)
+        (V(["s", [["a", ["b", 3]], ["b", ["b", 2]]]]), ["C", ["s", [["a", ["e", 3, 1]], ["b", ["b", 2]]]], 13], m("A")),
+        (V(["s", [["a", ["b", 1]], ["b", ["b", 2]]]]), ["C", ["s", [["a", ["e", 3, 1]], ["b", ["b", 2]]]], 13], m("R")),
+        (V(["s", [["a", ["e", 3, 1]], ["b", ["b", 2]]]]), ["C", ["s", [["a", ["e", 3, 1]], ["b", ["b", 2]]]], 13], m("A")),
+        (V(["s", [["a", ["e", 3, 2]], ["b", ["b", 2]]]]), ["C", ["s", [["a", ["e", 3, 1]], ["b", ["b", 2]]]], 13], m("C")),
+        (V(["s", [["a", ["g", 3]], ["b", ["b", 2]]]]), ["C", ["s", [["a", ["e", 3, 1]], ["b", ["b", 2]]]], 13], ["I", ["a", "b"]]),
+        (V(["s", [["a", ["b", 3]], ["b", ["b", 2]]]]), ["C", ["s", [["a", ["e", 3, 1]], ["b", ["b", 2]]]], 13], ["M", [["a", m("A")]]]),
+        (V(["s", [["a", ["b", 1]], ["b", ["b", 2]]]]), ["C", ["s", [["a", ["n", 3]], ["b", ["g", 2]]]], 29], m("A")),
+        (V(["s", [["x", ["s", [["a", ["b", 1]], ["b", ["b", 2]]]]], ["y", ["b", 1]]]]), ["C", ["s", [["x", ["s", [["a", ["e", 3, 1]], ["b", ["b", 2]]]]], ["y", ["b", 1]]]], 45], m("A")),
+        (V(["a", ["s", [["a", ["b", 2]], ["b", ["b", 2]]]], 2]), ["C", ["a", ["s", [["a", ["e", 3, 1]], ["b", ["b", 2]]]], 2], 717], m("A")),
+        (V(["a", ["s", [["a", ["e", 3, 1]], ["b", ["b", 2]]]], 2]), ["C", ["a", ["s", [["a", ["e", 3, 1]], ["b", ["b", 2]]]], 2], 717], m("A")),
+        (["P", ["s", [["a", ["b", 1]], ["b", ["b", 2]]]], 1, [0, 1, 2]], ["C", ["s", [["a", ["e", 3, 1]], ["b", ["b", 2]]]], 13], m("R")),
+        (["P", ["s", [["a", ["e", 3, 1]], ["b", ["b", 2]]]], 1, [0, 1, 2]], ["C", ["s", [["a", ["e", 3, 1]], ["b", ["b", 2]]]], 13], m("R")),
+        (V(["u", [["a", ["b", 3]], ["b", ["b", 2]]]]), ["C", ["u", [["a", ["b", 3]], ["b", ["b", 2]]]], 5], m("R")),
+        (V(["u", [["a", ["b", 3]]]]), ["C", ["s", [["a", ["b", 3]], ["b", ["b", 2]]]], 5], m("R")),
+        (["D", [["a", V(["b", 3])]]], ["C", ["u", [["a", ["b", 3]]]], 1], m("R")),
+        # enum-shaped signals and members of views; enum members given directly
+        (V(["e", 3, 1]), V(["b", 3]), m("R")), (V(["b", 3]), V(["e", 3, 1]), m("R")), (V(["e", 3, 1]), V(["e", 3, 1]), m("R")),
+        (V(["e", 3, 1]), V(["e", 3, 2]), m("R")), (V(["n", 3]), V(["b", 3]), m("R")), (V(["n", 3]), V(["e", 3, 1]), m("R")),
+        (V(["s", [["a", ["e", 3, 1]]]]), V(["s", [["a", ["b", 3]]]]), m("A")), (V(["s", [["a", ["e", 2, 1]], ["b", ["n", 2]]]]), V(["s", [["a", ["e", 2, 1]], ["b", ["b", 2]]]]), m("A")),
+        (V(["s", [["a", ["e", 3, 1]]]]), ["D", [["a", ["E", 5, 3, 1]]]], m("R")), (V(["s", [["a", ["b", 3]]]]), ["D", [["a", ["E", 5, 3, 1]]]], m("R")),
+        (V(["s", [["a", ["e", 3, 1]]]]), ["D", [["a", ["i", 1]]]], m("R")), (V(["b", 2]), ["E", 5, 3, 1], m("R")), (V(["e", 3, 1]), ["E", 5, 3, 1], m("R")),
+        (["P", ["e", 2, 1], 1, [0, 1]], V(["e", 2, 1]), m("R")), (["P", ["e", 2, 1], 1, [0, 1]], V(["b", 2]), m("R")),
+        (V(["u", [["a", ["e", 2, 1]], ["b", ["b", 2]]]]), V(["u", [["a", ["b", 2]], ["b", ["b", 2]]]]), m("R")),
         (["D", []], ["D", []], m("R")), (["D", []], V(S2), m("C")), (V(S2), V(["s", [["w", ["b", 1]]]], 1), m("C")),
         (["D", [["x", V(["b", 2])]]], V(["b", 2], 1), m("R")), (V(["b", 2]), ["L", [V(["b", 2])]], m("R")),
         (V(S2), V(S2, 1), ["I", []]), (V(S2), V(S2, 1), ["M", []]), (V(["b", 2]), V(["b", 2], 1), ["I", []]),
@@ -703,6 +770,8 @@ REPAIRED = [
      (["V", ["s", [["a", ["g", 3]]]], 0], ["V", ["b", 4], 0], ["m", "R"])),
     ("b9861c1", "assign() on an ArrayProxy of views over an ArrayLayout raised AttributeError (F-b7-2)",
      (["P", ["a", ["b", 2], 2], 0, [0, 1]], ["V", ["a", ["b", 2], 2], 0], ["m", "R"])),
+    ("d1cbe8d", "assign() shape-checked a Python int unwrapped from a single-member Const by its value (F-b7-4)",
+     (["V", ["b", 3], 0], ["C", ["s", [["a", ["b", 3]]]], 1], ["m", "R"])),
 ]
 
 
@@ -712,7 +781,13 @@ def regression_calls():
     SA = ["s", [["x", A2], ["y", ["g", 2]]]]
     V = lambda l, s=0: ["V", l, s]  # noqa: E731
     m = lambda c: ["m", c]  # noqa: E731
+    C1 = lambda l, v: ["C", l, v]  # noqa: E731
     return [c for _, _, c in REPAIRED] + [
+        (V(["b", 3]), C1(["s", [["a", ["b", 3]]]], 5), m("R")), (V(["g", 3]), C1(["s", [["a", ["g", 3]]]], 6), m("A")),
+        (V(["b", 2]), C1(["a", ["b", 2], 1], 1), m("R")), (V(["b", 2]), C1(["s", [["a", ["a", ["b", 3], 1]]]], 1), m("R")),
+        (V(["b", 3]), C1(["s", [["a", ["n", 3]]]], 1), m("R")), (V(["b", 3]), C1(["s", [["a", ["e", 3, 1]]]], 1), m("R")),
+        (V(["e", 3, 1]), C1(["s", [["a", ["e", 3, 1]]]], 1), m("R")), (V(["s", [["k", ["b", 3]]]]), C1(["s", [["a", ["b", 3]]]], 1), m("R")),
+        (["P", ["b", 3], 0, [0, 1]], C1(["s", [["a", ["b", 3]]]], 1), m("R")), (["P", ["b", 3], 0, [0, 1]], C1(["s", [["a", ["b", 3]]]], 5), m("R")),
         (V(["b", 3]), V(["s", [["a", ["g", 3]]]]), m("R")), (V(["g", 3]), V(["s", [["a", ["g", 3]]]]), m("R")),
         (V(["g", 4]), V(["a", ["g", 3], 1]), m("A")), (V(["a", ["g", 3], 1]), V(["g", 3]), m("A")),
         (V(["s", [["a", ["s", [["b", ["g", 2]]]]]]]), V(["b", 2]), m("R")), (V(["b", 2]), V(["s", [["a", ["s", [["b", ["g", 2]]]]]]]), m("C")),
